@@ -2667,11 +2667,11 @@ Section ops2.
       splits; [eapply Good_grow; eauto|intros A; eapply Avail_grow; eauto|apply (ext_locked _ _ E1)|exact D1].
   Qed.
 
-  Lemma step_extend st s a internal last :
+  Lemma step_extend sl cg st s a internal last :
     Good seed st ->
-    let st' := fst (step true st (OExtend s a internal last)) in
+    let st' := fst (step (mkFacts true sl cg) st (OExtend s a internal last)) in
     Good seed st' /\ (Avail st -> Avail st') /\ m_locked (st_mem st') = m_locked (st_mem st) /\
-    match snd (step true st (OExtend s a internal last)) with
+    match snd (step (mkFacts true sl cg) st (OExtend s a internal last)) with
     | OutOk =>
       disk_next (st_disk st') s a internal = N.max (disk_next (st_disk st) s a internal) (last + 1) /\
       (forall s' a' i', (s', a', i') <> (s, a, internal) ->
@@ -2683,6 +2683,7 @@ Section ops2.
     intros G. destruct G as (I & NX & HCs). assert (G : Good seed st) by exact (conj I (conj NX HCs)).
     cbn [step]. unfold with_scope.
     destruct (aget scope_eq_dec (m_scopes (st_mem st)) s) as [sch|] eqn:Es; [|simpl; splits; auto].
+    cbn [f_extend_priv].
     pose proof (extend_addresses_post seed _ true st s sch a last internal eq_refl I eq_refl (aget_In _ _ _ _ Es) NX) as H.
     destruct (extend_addresses true st s sch a last internal) as [st1 u|st1 e]; simpl.
     - destruct H as (I1 & E1 & N1 & NC1 & X1 & D1 & D2).
@@ -3046,13 +3047,14 @@ Section ops5.
   Proof.
     intros G. pose proof G as (I & NX & HCs). cbn [step]. unfold with_scope.
     destruct (aget scope_eq_dec (m_scopes (st_mem st)) s) as [sch|] eqn:Es; [|simpl; splits; auto; intros; discriminate].
+    destruct (locked st) eqn:Elk; [simpl; splits; auto; intros; discriminate|].
     destruct (aget sp_dec (m_pk (st_mem st)) (s, p)) as [k0|] eqn:Ek; simpl.
     { splits; auto. intros k Hk. inversion Hk. subst. apply (i_pk _ _ _ I _ _ _ Ek). }
     destruct (aget sa_dec (m_accts (st_mem st)) (s, dp_iacct p)) as [ai|] eqn:Ec; simpl;
       [|splits; auto; intros; discriminate].
     pose proof (i_accts _ _ _ I _ _ _ Ec) as Hai.
     pose proof (ai_static_wf _ _ _ _ _ _ (i_disk _ _ _ I) Hai) as Hwf.
-    destruct (derive_key ai (dp_branch p) (dp_index p) (negb (locked st))) as [[k|k]| |] eqn:Hd; simpl;
+    destruct (derive_key ai (dp_branch p) (dp_index p) _) as [[k|k]| |] eqn:Hd; simpl;
       try (splits; auto; intros; discriminate).
     destruct (derive_key_spec _ _ _ _ _ Hwf Hd) as (K1 & K2 & K3). simpl in K2.
     destruct Hai as (row & R1 & _ & R3 & _).
@@ -3122,8 +3124,6 @@ Section ops6.
     apply negb_false_iff in El.
     destruct (negb (pass =? m_pass (st_mem st))); simpl.
     { destruct (lock_all_good st G) as (G1 & A1 & _ & D1). splits; assumption. }
-    destruct (existsb (fun kv => negb (is_some (ai_enc (snd kv)))) (m_accts (st_mem st))) eqn:Ex; simpl.
-    { destruct (lock_all_good st G) as (G1 & A1 & _ & D1). splits; assumption. }
     (* the successful path *)
     set (st1 := upd_mem (fun m => set_m_accts (amap fill_priv (m_accts m)) m) st).
     assert (Hst1 : st1 = mkState (st_disk st)
@@ -3131,7 +3131,7 @@ Section ops6.
                             (amap fill_priv (m_accts (st_mem st))) (m_addrs (st_mem st)) (m_queue (st_mem st))
                             (m_pk (st_mem st)) (m_heap (st_mem st)) (m_handles (st_mem st)))) by reflexivity.
     assert (I1 : Inv0 seed false st1).
-    { rewrite Hst1. apply (Inv0_reheap seed _ false _ st _ _ I (heap_rel_refl _)).
+    { rewrite Hst1. apply (Inv0_reheap seed _ false _ st _ _ _ I (heap_rel_refl _)); [auto|].
       intros s a ai H. simpl in H. rewrite aget_amap in H.
       destruct (aget sa_dec (m_accts (st_mem st)) (s, a)) as [ai0|] eqn:E; [|discriminate]. inversion H. subst ai.
       destruct (i_accts _ _ _ I _ _ _ E) as (row & R1 & R2 & R3 & R4 & R5 & R6 & R7).
@@ -3139,12 +3139,7 @@ Section ops6.
     assert (HC1 : HC st1).
     { intros oid ma Hn Hi. rewrite Hst1 in *. simpl in *. rewrite aget_amap.
       specialize (HCs oid ma Hn Hi). destruct (aget sa_dec (m_accts (st_mem st)) _); [reflexivity|discriminate]. }
-    assert (HF1 : filled st1).
-    { intros k ai H. rewrite Hst1 in H. simpl in H. rewrite aget_amap in H.
-      destruct (aget sa_dec (m_accts (st_mem st)) k) as [ai0|] eqn:E; [|discriminate]. inversion H. subst ai. simpl.
-      pose proof (existsb_false_In _ _ (k, ai0) Ex (aget_In _ _ _ _ E)) as Hx. simpl in Hx.
-      destruct (ai_enc ai0); [discriminate|discriminate]. }
-    destruct (derive_queue_post seed (m_queue (st_mem st)) st1 I1 HC1 HF1 eq_refl)
+    destruct (derive_queue_post seed (m_queue (st_mem st)) st1 I1 HC1 eq_refl)
       as (st2 & D2 & I2 & Q2 & K2 & A2 & L2 & H2 & (FL & FR)).
     fold st1. rewrite D2. simpl.
     pose proof (Inv0_set_locked seed false false st2 I2) as I3.
@@ -3234,6 +3229,57 @@ Proof.
   exact (A oid ma row Hn Hi H1 Hp).
 Qed.
 
+(** createManagerKeyScope on a scope that does not exist yet, with or without
+    storing lastAccount *)
+Lemma create_scope_grow seed sl D s sch :
+  disk_ok seed D -> aget scope_eq_dec (d_scopes D) s = None ->
+  disk_ok seed (create_scope sl D s sch) /\ dgrow D (create_scope sl D s sch) /\
+  d_next (create_scope sl D s sch) = d_next D /\
+  aget scope_eq_dec (d_scopes (create_scope sl D s sch)) s =
+    Some (sch, child (child (d_master D) (fst s) true) (snd s) true).
+Proof.
+  intros (D1 & D2 & D3 & D4 & D5 & D6 & D7) Es.
+  set (coin := child (child (d_master D) (fst s) true) (snd s) true).
+  set (D' := create_scope sl D s sch).
+  assert (Hfresh : forall a, aget sa_dec (d_accts D) (s, a) = None).
+  { intros a. destruct (aget sa_dec (d_accts D) (s, a)) as [r|] eqn:E; [|reflexivity].
+    destruct (D3 s a r E) as (_ & X & _). rewrite Es in X. discriminate. }
+  assert (Ga : forall k r, aget sa_dec (d_accts D) k = Some r -> aget sa_dec (d_accts D') k = Some r).
+  { intros k r H. unfold D', create_scope. unf. rewrite aget_aset. destruct (sa_dec k (s, 0)) as [->|]; [|exact H].
+    rewrite Hfresh in H. discriminate. }
+  assert (Gs : forall s' v, aget scope_eq_dec (d_scopes D) s' = Some v -> aget scope_eq_dec (d_scopes D') s' = Some v).
+  { intros s' v H. unfold D', create_scope. unf. apply aget_app_old. exact H. }
+  assert (Gr : dgrow D D') by (constructor; [exact Ga|exact Gs|reflexivity]).
+  assert (Hnew : aget scope_eq_dec (d_scopes D') s = Some (sch, coin)).
+  { unfold D', create_scope. unf. rewrite aget_app, Es. destruct (scope_eq_dec s s); [reflexivity|contradiction]. }
+  splits; [|exact Gr|reflexivity|exact Hnew].
+  unfold disk_ok. splits.
+  - exact D1.
+  - intros s' sch' coin' H. unfold D', create_scope in H. unf. rewrite aget_app in H.
+    destruct (aget scope_eq_dec (d_scopes D) s') as [x|] eqn:E; [inversion H; subst; eauto|].
+    destruct (scope_eq_dec s' s) as [->|]; [|discriminate]. inversion H. subst. unfold coin_key. rewrite D1. reflexivity.
+  - intros s' a' r H. assert (H' := H). unfold D', create_scope in H. unf. rewrite aget_aset in H.
+    destruct (sa_dec (s', a') (s, 0)) as [E|E].
+    + inversion E. inversion H. subst. splits.
+      * unfold row_ok. simpl. splits; try reflexivity. unfold acct_key, coin_key. rewrite D1. reflexivity.
+      * rewrite Hnew. reflexivity.
+      * unfold D', create_scope. unf. destruct sl; [rewrite aget_aset_eq; lia|].
+        destruct (aget scope_eq_dec (d_last D) s); [lia|reflexivity].
+    + destruct (D3 s' a' r H) as (X1 & X2 & X3). splits; try assumption.
+      * destruct (aget scope_eq_dec (d_scopes D) s') as [x|] eqn:E'; [|discriminate]. rewrite (Gs _ _ E'). reflexivity.
+      * unfold D', create_scope. unf. destruct sl; [|exact X3]. rewrite aget_aset.
+        destruct (scope_eq_dec s' s) as [->|]; [|exact X3]. rewrite Es in X2. discriminate.
+  - intros s' k r H. eapply addr_row_ok_grow; [exact Gr|]. apply D4. exact H.
+  - exact D5.
+  - unfold D', create_scope. unf. rewrite map_app. simpl. apply NoDup_snoc; [exact D6|]. exact (aget_None_notin _ _ _ Es).
+  - intros s' l H. unfold D', create_scope in H. unf. destruct sl.
+    + rewrite aget_aset in H. destruct (scope_eq_dec s' s) as [->|]; [rewrite Hnew; reflexivity|].
+      specialize (D7 s' l H). destruct (aget scope_eq_dec (d_scopes D) s') as [x|] eqn:E'; [|discriminate].
+      rewrite (Gs _ _ E'). reflexivity.
+    + specialize (D7 s' l H). destruct (aget scope_eq_dec (d_scopes D) s') as [x|] eqn:E'; [|discriminate].
+      rewrite (Gs _ _ E'). reflexivity.
+Qed.
+
 Section ops7.
   Context (seed : N).
 
@@ -3249,48 +3295,15 @@ Section ops7.
     destruct (locked st); simpl; [splits; auto|].
     destruct (aget scope_eq_dec (d_scopes (st_disk st)) s) as [v|] eqn:Es; simpl; [splits; auto|].
     destruct st as [D M]. simpl in *.
-    pose proof (i_disk _ _ _ I) as (D1 & D2 & D3 & D4 & D5 & D6 & D7). simpl in D1, D2, D3, D4, D5, D6, D7.
-    set (coin := child (child (d_master D) (fst s) true) (snd s) true).
-    set (acct := child coin 0 true).
-    set (row := mkRow ADefault acct (Some acct) None 0 0).
-    set (D' := create_scope false D s sch).
-    assert (Hfresh : aget sa_dec (d_accts D) (s, 0) = None).
-    { destruct (aget sa_dec (d_accts D) (s, 0)) as [r|] eqn:E; [|reflexivity].
-      destruct (D3 s 0 r E) as (_ & X & _). rewrite Es in X. discriminate. }
-    assert (Ga : forall k r, aget sa_dec (d_accts D) k = Some r -> aget sa_dec (d_accts D') k = Some r).
-    { intros k r H. unfold D', create_scope. unf. rewrite aget_aset. destruct (sa_dec k (s, 0)) as [->|]; [congruence|exact H]. }
-    assert (Gs : forall s' v, aget scope_eq_dec (d_scopes D) s' = Some v -> aget scope_eq_dec (d_scopes D') s' = Some v).
-    { intros s' v H. unfold D', create_scope. unf. apply aget_app_old. exact H. }
-    assert (Gr : dgrow D D') by (constructor; [exact Ga|exact Gs|reflexivity]).
-    assert (HD' : disk_ok seed D').
-    { unfold disk_ok. splits.
-      - exact D1.
-      - intros s' sch' coin' H. unfold D', create_scope in H. unf. rewrite aget_app in H.
-        destruct (aget scope_eq_dec (d_scopes D) s') as [x|] eqn:E; [inversion H; subst; eauto|].
-        destruct (scope_eq_dec s' s) as [->|]; [|discriminate]. inversion H. subst. unfold coin_key. rewrite D1. reflexivity.
-      - intros s' a' r H. unfold D', create_scope in H |- *. unf. rewrite aget_aset in H.
-        destruct (sa_dec (s', a') (s, 0)) as [E|E].
-        + inversion E. inversion H. subst. splits.
-          * unfold row_ok. simpl. splits; try reflexivity. unfold acct_key, coin_key. rewrite D1. reflexivity.
-          * rewrite aget_app, Es. destruct (scope_eq_dec s s); [reflexivity|contradiction].
-          * destruct (aget scope_eq_dec (d_last D) s); [lia|reflexivity].
-        + destruct (D3 s' a' r H) as (X1 & X2 & X3). splits; try assumption.
-          destruct (aget scope_eq_dec (d_scopes D) s') as [x|] eqn:E'; [|discriminate].
-          rewrite (aget_app_old _ _ _ _ _ _ E'). reflexivity.
-      - intros s' k r H. eapply addr_row_ok_grow; [exact Gr|]. apply D4. exact H.
-      - exact D5.
-      - unfold D', create_scope. unf. rewrite map_app. simpl. apply NoDup_snoc; [exact D6|].
-        exact (aget_None_notin _ _ _ Es).
-      - intros s' l H. unfold D', create_scope in H |- *. unf. specialize (D7 s' l H).
-        destruct (aget scope_eq_dec (d_scopes D) s') as [x|] eqn:E'; [|discriminate].
-        rewrite (aget_app_old _ _ _ _ _ _ E'). reflexivity. }
+    set (sl := f_scope_last b).
+    destruct (create_scope_grow seed sl D s sch (i_disk _ _ _ I) Es) as (HD' & Gr & Hn & Hnew).
+    set (D' := create_scope sl D s sch) in *.
     pose proof (Inv0_dgrow seed _ D M D' I Gr HD') as I1.
     assert (I2 : Inv0 seed (m_locked M) (upd_mem (fun m => set_m_scopes (m_scopes m ++ [(s, sch)]) m) (mkState D' M))).
     { unf. destruct I1. constructor; unfinv; try assumption.
       - intros s' sch' H. apply in_app_or in H. destruct H as [H|[H|[]]]; [eauto|].
-        inversion H. subst. exists coin. unfold D', create_scope. unf. rewrite aget_app, Es.
-        destruct (scope_eq_dec s' s'); [reflexivity|contradiction].
-      - intros s' oid b0 i H. destruct (i_queue0 s' oid b0 i H) as (ma & Q1 & Q2 & Q3 & Q4 & Q5 & Q6).
+        inversion H. subst. eexists. exact Hnew.
+      - intros s' oid b0 i H. destruct (i_queue0 s' oid b0 i H) as (ma & Q1 & Q2 & Q3 & Q4 & Q5 & Q6 & Q7).
         exists ma. splits; try assumption. destruct (aget scope_eq_dec (m_scopes M) s') as [x|] eqn:E'; [|discriminate].
         rewrite (aget_app_old _ _ _ _ _ _ E'). reflexivity. }
     unf. splits.
@@ -3298,7 +3311,7 @@ Section ops7.
       intros s' a' ai H. simpl in *. exact (NX s' a' ai H).
     - intros A. exact (Avail_dgrow seed _ D M D' I Gr A).
     - reflexivity.
-    - exact Ga.
+    - exact (g_accts _ _ Gr).
     - intros k. reflexivity.
   Qed.
 End ops7.
@@ -3497,7 +3510,7 @@ Section ops9.
 End ops9.
 
 Section ops10.
-  Context (seed : N).
+  Context (seed : N) (sl cg : bool).
 
   Lemma step_importkey b st s k :
     Good seed st ->
@@ -3564,52 +3577,52 @@ Section ops10.
   Qed.
 
   (** every admissible operation preserves the run invariants *)
-  Theorem step_good b st o : Good seed st -> adm st o = true -> Good seed (fst (step b st o)).
+  Theorem step_good st o : Good seed st -> adm st o = true -> Good seed (fst (step (mkFacts true sl cg) st o)).
   Proof.
     intros G Ha. destruct o.
-    - apply (step_open seed b st G).
-    - apply (step_unlock seed b st pass G).
-    - apply (step_lock seed b st G).
-    - apply (step_chpass seed b st old new G).
-    - apply (step_newscope seed b st s sch G).
-    - apply (step_newaccount seed b st s name G Ha).
-    - apply (step_importxpub seed b st s name x cn fp sch G Ha).
-    - apply (step_next seed b st s a internal n G).
-    - apply (step_extend seed b st s a internal last G).
-    - apply (step_lookup seed b st ad G).
-    - apply (step_markused seed b st ad G).
-    - apply (step_derive seed b st s p G).
-    - apply (step_derivecache seed b st s p G).
-    - apply (step_importkey b st s k G).
-    - apply (step_importscript b st s sc G).
-    - apply (step_props seed b st s a G).
-    - apply (step_priv seed b st h G).
-    - apply (step_script seed b st h G).
+    - apply (step_open seed (mkFacts true sl cg) st G).
+    - apply (step_unlock seed (mkFacts true sl cg) st pass G).
+    - apply (step_lock seed (mkFacts true sl cg) st G).
+    - apply (step_chpass seed (mkFacts true sl cg) st old new G).
+    - apply (step_newscope seed (mkFacts true sl cg) st s sch G).
+    - apply (step_newaccount seed (mkFacts true sl cg) st s name G Ha).
+    - apply (step_importxpub seed (mkFacts true sl cg) st s name x cn fp sch G Ha).
+    - apply (step_next seed (mkFacts true sl cg) st s a internal n G).
+    - apply (step_extend seed sl cg st s a internal last G).
+    - apply (step_lookup seed (mkFacts true sl cg) st ad G).
+    - apply (step_markused seed (mkFacts true sl cg) st ad G).
+    - apply (step_derive seed (mkFacts true sl cg) st s p G).
+    - apply (step_derivecache seed (mkFacts true sl cg) st s p G).
+    - apply (step_importkey (mkFacts true sl cg) st s k G).
+    - apply (step_importscript (mkFacts true sl cg) st s sc G).
+    - apply (step_props seed (mkFacts true sl cg) st s a G).
+    - apply (step_priv seed (mkFacts true sl cg) st h G).
+    - apply (step_script seed (mkFacts true sl cg) st h G).
   Qed.
 
   (** ... and, when extendAddresses uses nextAddresses' watch-only test,
       the availability of private keys *)
-  Theorem step_avail st o : Good seed st -> Avail st -> adm st o = true -> Avail (fst (step true st o)).
+  Theorem step_avail st o : Good seed st -> Avail st -> adm st o = true -> Avail (fst (step (mkFacts true sl cg) st o)).
   Proof.
     intros G A Ha. destruct o.
-    - apply (step_open seed true st G).
-    - apply (step_unlock seed true st pass G); exact A.
-    - apply (step_lock seed true st G); exact A.
-    - apply (step_chpass seed true st old new G); exact A.
-    - apply (step_newscope seed true st s sch G); exact A.
-    - apply (step_newaccount seed true st s name G Ha); exact A.
-    - apply (step_importxpub seed true st s name x cn fp sch G Ha); exact A.
-    - apply (step_next seed true st s a internal n G); exact A.
-    - apply (step_extend seed true st s a internal last G); [reflexivity|exact A].
-    - apply (step_lookup seed true st ad G); exact A.
-    - apply (step_markused seed true st ad G); exact A.
-    - apply (step_derive seed true st s p G); exact A.
-    - apply (step_derivecache seed true st s p G); exact A.
-    - apply (step_importkey true st s k G); exact A.
-    - apply (step_importscript true st s sc G); exact A.
-    - apply (step_props seed true st s a G); exact A.
-    - apply (step_priv seed true st h G); exact A.
-    - apply (step_script seed true st h G); exact A.
+    - apply (step_open seed (mkFacts true sl cg) st G).
+    - apply (step_unlock seed (mkFacts true sl cg) st pass G); exact A.
+    - apply (step_lock seed (mkFacts true sl cg) st G); exact A.
+    - apply (step_chpass seed (mkFacts true sl cg) st old new G); exact A.
+    - apply (step_newscope seed (mkFacts true sl cg) st s sch G); exact A.
+    - apply (step_newaccount seed (mkFacts true sl cg) st s name G Ha); exact A.
+    - apply (step_importxpub seed (mkFacts true sl cg) st s name x cn fp sch G Ha); exact A.
+    - apply (step_next seed (mkFacts true sl cg) st s a internal n G); exact A.
+    - apply (step_extend seed sl cg st s a internal last G); exact A.
+    - apply (step_lookup seed (mkFacts true sl cg) st ad G); exact A.
+    - apply (step_markused seed (mkFacts true sl cg) st ad G); exact A.
+    - apply (step_derive seed (mkFacts true sl cg) st s p G); exact A.
+    - apply (step_derivecache seed (mkFacts true sl cg) st s p G); exact A.
+    - apply (step_importkey (mkFacts true sl cg) st s k G); exact A.
+    - apply (step_importscript (mkFacts true sl cg) st s sc G); exact A.
+    - apply (step_props seed (mkFacts true sl cg) st s a G); exact A.
+    - apply (step_priv seed (mkFacts true sl cg) st h G); exact A.
+    - apply (step_script seed (mkFacts true sl cg) st h G); exact A.
   Qed.
 End ops10.
 
@@ -3617,36 +3630,6 @@ End ops10.
 
 Section init.
   Context (seed : N).
-
-  (** createManagerKeyScope on a scope that does not exist yet *)
-  Lemma create_scope_ok D s sch :
-    disk_ok seed D -> aget scope_eq_dec (d_scopes D) s = None -> d_addrs D = [] ->
-    disk_ok seed (create_scope true D s sch) /\ d_addrs (create_scope true D s sch) = [].
-  Proof.
-    intros (D1 & D2 & D3 & D4 & D5 & D6 & D7) Es Ha. split; [|exact Ha].
-    set (coin := child (child (d_master D) (fst s) true) (snd s) true).
-    unfold disk_ok, create_scope. unf. splits.
-    - exact D1.
-    - intros s' sch' coin' H. rewrite aget_app in H.
-      destruct (aget scope_eq_dec (d_scopes D) s') as [x|] eqn:E; [inversion H; subst; eauto|].
-      destruct (scope_eq_dec s' s) as [->|]; [|discriminate]. inversion H. subst. unfold coin_key. rewrite D1. reflexivity.
-    - intros s' a' r H. rewrite aget_aset in H. destruct (sa_dec (s', a') (s, 0)) as [E|E].
-      + inversion E. inversion H. subst. splits.
-        * unfold row_ok. simpl. splits; try reflexivity. unfold acct_key, coin_key. rewrite D1. reflexivity.
-        * rewrite aget_app, Es. destruct (scope_eq_dec s s); [reflexivity|contradiction].
-        * rewrite aget_aset_eq. lia.
-      + destruct (D3 s' a' r H) as (X1 & X2 & X3). splits; try assumption.
-        * destruct (aget scope_eq_dec (d_scopes D) s') as [x|] eqn:E'; [|discriminate].
-          rewrite (aget_app_old _ _ _ _ _ _ E'). reflexivity.
-        * rewrite aget_aset. destruct (scope_eq_dec s' s) as [->|]; [|exact X3]. rewrite Es in X2. discriminate.
-    - intros s' k r H. rewrite Ha in H. discriminate.
-    - exact D5.
-    - rewrite map_app. simpl. apply NoDup_snoc; [exact D6|]. exact (aget_None_notin _ _ _ Es).
-    - intros s' l H. rewrite aget_aset in H. destruct (scope_eq_dec s' s) as [->|].
-      + rewrite aget_app, Es. destruct (scope_eq_dec s s); [reflexivity|contradiction].
-      + specialize (D7 s' l H). destruct (aget scope_eq_dec (d_scopes D) s') as [x|] eqn:E'; [|discriminate].
-        rewrite (aget_app_old _ _ _ _ _ _ E'). reflexivity.
-  Qed.
 
   Lemma fresh_mem_good D : disk_ok seed D -> Good seed (mkState D (fresh_mem D)) /\ Avail (mkState D (fresh_mem D)).
   Proof.
@@ -3667,47 +3650,45 @@ Section init.
   Lemma init_good pass : Good seed (init seed pass) /\ Avail (init seed pass).
   Proof.
     unfold init. apply fresh_mem_good.
-    assert (H0 : disk_ok seed (mkDisk (master seed) pass [] [] [] [] []) /\
-                 d_addrs (mkDisk (master seed) pass [] [] [] [] []) = []).
-    { split; [|reflexivity]. unfold disk_ok. simpl. splits; try (intros; discriminate); try reflexivity. constructor. }
+    assert (H0 : disk_ok seed (mkDisk (master seed) pass [] [] [] [] [])).
+    { unfold disk_ok. simpl. splits; try (intros; discriminate); try reflexivity. constructor. }
     unfold default_scopes. cbn [fold_left fst snd].
-    destruct H0 as (H0 & A0).
-    destruct (create_scope_ok _ (49, 0) (mkSchema NP2WKH P2WKH) H0 eq_refl A0) as (H1 & A1).
-    destruct (create_scope_ok _ (84, 0) (mkSchema P2WKH P2WKH) H1 eq_refl A1) as (H2 & A2).
-    destruct (create_scope_ok _ (86, 0) (mkSchema P2TR P2TR) H2 eq_refl A2) as (H3 & A3).
-    destruct (create_scope_ok _ (44, 0) (mkSchema P2PKH P2PKH) H3 eq_refl A3) as (H4 & A4).
+    destruct (create_scope_grow seed true _ (49, 0) (mkSchema NP2WKH P2WKH) H0 eq_refl) as (H1 & _).
+    destruct (create_scope_grow seed true _ (84, 0) (mkSchema P2WKH P2WKH) H1 eq_refl) as (H2 & _).
+    destruct (create_scope_grow seed true _ (86, 0) (mkSchema P2TR P2TR) H2 eq_refl) as (H3 & _).
+    destruct (create_scope_grow seed true _ (44, 0) (mkSchema P2PKH P2PKH) H3 eq_refl) as (H4 & _).
     exact H4.
   Qed.
 End init.
 
 (** states reachable from Create(seed) by admissible operations *)
-Inductive reach (b : bool) (seed pass : N) : state -> Prop :=
-| reach_init : reach b seed pass (init seed pass)
-| reach_step st o : reach b seed pass st -> adm st o = true -> reach b seed pass (fst (step b st o)).
+Inductive reach (sl cg : bool) (seed pass : N) : state -> Prop :=
+| reach_init : reach sl cg seed pass (init seed pass)
+| reach_step st o : reach sl cg seed pass st -> adm st o = true -> reach sl cg seed pass (fst (step (mkFacts true sl cg) st o)).
 
-Lemma reach_good b seed pass st : reach b seed pass st -> Good seed st.
+Lemma reach_good sl cg seed pass st : reach sl cg seed pass st -> Good seed st.
 Proof. induction 1; [apply init_good|apply step_good; assumption]. Qed.
 
-Lemma reach_avail seed pass st : reach true seed pass st -> Avail st.
+Lemma reach_avail sl cg seed pass st : reach sl cg seed pass st -> Avail st.
 Proof.
   induction 1; [apply init_good|]. apply (step_avail seed); try assumption. eapply reach_good; eauto.
 Qed.
 
 (** admissibility of every step of a history *)
-Fixpoint run_adm (b : bool) (st : state) (h : list op) : bool :=
+Fixpoint run_adm (b : facts) (st : state) (h : list op) : bool :=
   match h with
   | [] => true
   | o :: h' => adm st o && run_adm b (fst (step b st o)) h'
   end.
 
-Lemma run_reach b seed pass h : forall st,
-  reach b seed pass st -> run_adm b st h = true -> reach b seed pass (fst (run b st h)).
+Lemma run_reach sl cg seed pass h : forall st,
+  reach sl cg seed pass st -> run_adm (mkFacts true sl cg) st h = true -> reach sl cg seed pass (fst (run (mkFacts true sl cg) st h)).
 Proof.
   induction h as [|o h IH]; intros st R Ha; simpl in *; [exact R|].
   apply andb_true_iff in Ha. destruct Ha as (Ha1 & Ha2).
-  destruct (step b st o) as [st1 r] eqn:E. simpl in *.
-  specialize (IH st1). destruct (run b st1 h) as [st2 rs] eqn:E2. simpl in *. apply IH; [|exact Ha2].
-  replace st1 with (fst (step b st o)) by (rewrite E; reflexivity). constructor; assumption.
+  destruct (step (mkFacts true sl cg) st o) as [st1 r] eqn:E. simpl in *.
+  specialize (IH st1). destruct (run (mkFacts true sl cg) st1 h) as [st2 rs] eqn:E2. simpl in *. apply IH; [|exact Ha2].
+  replace st1 with (fst (step (mkFacts true sl cg) st o)) by (rewrite E; reflexivity). constructor; assumption.
 Qed.
 
 (* ------------------------------------------------ the statements of C03 *)
@@ -3734,18 +3715,18 @@ Definition chain_info_ok (row : acct_row) (sch : schema) (s : scope) (a b idx : 
   r_fmt i = row_fmt sch row b.
 
 Section theorems.
-  Context (b : bool) (seed pass : N).
+  Context (sl cg : bool) (seed pass : N).
 
   (** account keys: seed-derived accounts hold m/purpose'/coin'/account',
       imported accounts hold the imported xpub and no private key *)
   Theorem account_keys st s a row :
-    reach b seed pass st -> aget sa_dec (d_accts (st_disk st)) (s, a) = Some row ->
+    reach sl cg seed pass st -> aget sa_dec (d_accts (st_disk st)) (s, a) = Some row ->
     match ar_kind row with
     | ADefault => ar_pub row = acct_key seed (fst s) (snd s) a /\ ar_priv row = Some (ar_pub row) /\ ar_schema row = None
     | AWatchOnly => (exists x cn, ar_pub row = xpub_key x cn) /\ ar_priv row = None
     end.
   Proof.
-    intros R H. destruct (reach_good _ _ _ _ R) as (I & _). destruct (i_disk _ _ _ I) as (_ & _ & D3 & _).
+    intros R H. destruct (reach_good _ _ _ _ _ R) as (I & _). destruct (i_disk _ _ _ I) as (_ & _ & D3 & _).
     destruct (D3 s a row H) as (Hr & _). unfold row_ok in Hr. destruct (ar_kind row); tauto.
   Qed.
 
@@ -3763,7 +3744,7 @@ Section theorems.
 
   (** NextExternalAddresses / NextInternalAddresses *)
   Theorem next_addresses_correct st s a internal n st' rs row sch :
-    reach b seed pass st -> step b st (ONext s a internal n) = (st', OutAddrs rs) ->
+    reach sl cg seed pass st -> step (mkFacts true sl cg) st (ONext s a internal n) = (st', OutAddrs rs) ->
     acct_of st' s a row sch ->
     let branch := if internal then internal_branch else external_branch in
     let next := disk_next (st_disk st) s a internal in
@@ -3773,8 +3754,8 @@ Section theorems.
                                     r_pub i = ckd_pub (ckd_pub (Pub (ar_pub row)) branch) idx)
             rs (index_range next (N.to_nat n)).
   Proof.
-    intros R Hs (Hrow & coin & Hsc). pose proof (reach_good _ _ _ _ R) as G.
-    pose proof (step_next seed b st s a internal n G) as H. rewrite Hs in H. cbn [fst snd] in H.
+    intros R Hs (Hrow & coin & Hsc). pose proof (reach_good _ _ _ _ _ R) as G.
+    pose proof (step_next seed (mkFacts true sl cg) st s a internal n G) as H. rewrite Hs in H. cbn [fst snd] in H.
     destruct H as (G' & _ & _ & H1 & H2 & H3). cbv zeta. split; [exact H1|].
     (* all indices are below 2^31 *)
     assert (Hb : disk_next (st_disk st') s a internal <= hardened_start).
@@ -3798,14 +3779,14 @@ Section theorems.
       address; a chain address is the child of its account key at the
       reported, true path *)
   Theorem lookup_correct st ad st' r :
-    reach b seed pass st -> step b st (OLookup ad) = (st', OutAddrs [r]) ->
+    reach sl cg seed pass st -> step (mkFacts true sl cg) st (OLookup ad) = (st', OutAddrs [r]) ->
     rinfo_akey r = addr_key ad /\
     forall i row sch, r = RKey i -> r_imported i = false -> acct_of st' (r_scope i) (r_iacct i) row sch ->
       chain_info_ok row sch (r_scope i) (r_iacct i) (dp_branch (r_path i)) (dp_index (r_path i)) i /\
       dp_acct (r_path i) = child_num (ar_pub row).
   Proof.
-    intros R Hs. pose proof (reach_good _ _ _ _ R) as G.
-    pose proof (step_lookup seed b st ad G) as H. rewrite Hs in H. cbn [fst snd] in H.
+    intros R Hs. pose proof (reach_good _ _ _ _ _ R) as G.
+    pose proof (step_lookup seed (mkFacts true sl cg) st ad G) as H. rewrite Hs in H. cbn [fst snd] in H.
     destruct H as (_ & _ & _ & _ & H1 & H2 & H3 & _). split; [exact H3|].
     intros i row sch -> Hi (Hrow & Hsc). split; [eapply rinfo_ok_chain; eauto|exact (H2 Hi row Hrow)].
   Qed.
@@ -3813,12 +3794,12 @@ Section theorems.
   (** DeriveFromKeyPath: the derived address is the child of the account key
       at the requested branch/index and reports the requested path *)
   Theorem derive_correct st s p st' r row sch :
-    reach b seed pass st -> step b st (ODerive s p) = (st', OutAddrs [r]) ->
+    reach sl cg seed pass st -> step (mkFacts true sl cg) st (ODerive s p) = (st', OutAddrs [r]) ->
     acct_of st' s (dp_iacct p) row sch ->
     exists i, r = RKey i /\ r_path i = p /\ chain_info_ok row sch s (dp_iacct p) (dp_branch p) (dp_index p) i.
   Proof.
-    intros R Hs (Hrow & Hsc). pose proof (reach_good _ _ _ _ R) as G.
-    pose proof (step_derive seed b st s p G) as H. rewrite Hs in H. cbn [fst snd] in H.
+    intros R Hs (Hrow & Hsc). pose proof (reach_good _ _ _ _ _ R) as G.
+    pose proof (step_derive seed (mkFacts true sl cg) st s p G) as H. rewrite Hs in H. cbn [fst snd] in H.
     destruct H as (_ & _ & _ & _ & H1 & (i & -> & Hi & Hsx & Hp) & _). exists i. splits; auto.
     assert (Hia : r_iacct i = dp_iacct p).
     { simpl in H1. destruct H1 as (_ & _ & H1). rewrite Hi in H1. destruct H1 as (? & ? & ? & _ & _ & _ & E & _). congruence. }
@@ -3828,23 +3809,23 @@ Section theorems.
 
   (** a private key that is returned is never a wrong one (any source version) *)
   Theorem priv_never_wrong st o st' rs i k :
-    reach b seed pass st -> adm st o = true -> step b st o = (st', OutAddrs rs) -> In (RKey i) rs ->
+    reach sl cg seed pass st -> adm st o = true -> step (mkFacts true sl cg) st o = (st', OutAddrs rs) -> In (RKey i) rs ->
     (match o with ONext _ _ _ _ | OLookup _ | ODerive _ _ | OImportKey _ _ => True | _ => False end) ->
     r_priv i = POk k -> pub_of_priv k = r_pub i.
   Proof.
-    intros R Ha Hs Hin Hop Hk. pose proof (reach_good _ _ _ _ R) as G.
+    intros R Ha Hs Hin Hop Hk. pose proof (reach_good _ _ _ _ _ R) as G.
     assert (Hok : rinfo_ok (st_disk st') (m_locked (st_mem st)) (RKey i)).
     { destruct o; try contradiction.
-      - pose proof (step_next seed b st s a internal n G) as H. rewrite Hs in H. cbn [fst snd] in H.
+      - pose proof (step_next seed (mkFacts true sl cg) st s a internal n G) as H. rewrite Hs in H. cbn [fst snd] in H.
         destruct H as (_ & _ & _ & _ & _ & H3). clear - H3 Hin. induction H3; [contradiction|].
         destruct Hin as [<-|Hin]; [tauto|auto].
-      - pose proof (step_lookup seed b st ad G) as H. rewrite Hs in H. cbn [fst snd] in H.
+      - pose proof (step_lookup seed (mkFacts true sl cg) st ad G) as H. rewrite Hs in H. cbn [fst snd] in H.
         destruct H as (_ & _ & _ & _ & H).
         destruct rs as [|r [|]]; try contradiction. destruct Hin as [<-|[]]. tauto.
-      - pose proof (step_derive seed b st s p G) as H. rewrite Hs in H. cbn [fst snd] in H.
+      - pose proof (step_derive seed (mkFacts true sl cg) st s p G) as H. rewrite Hs in H. cbn [fst snd] in H.
         destruct H as (_ & _ & _ & _ & H).
         destruct rs as [|r [|]]; try contradiction. destruct Hin as [<-|[]]. tauto.
-      - pose proof (step_importkey seed b st s k0 G) as H. rewrite Hs in H. cbn [fst snd] in H.
+      - pose proof (step_importkey seed (mkFacts true sl cg) st s k0 G) as H. rewrite Hs in H. cbn [fst snd] in H.
         destruct H as (_ & _ & _ & _ & _ & _ & H).
         destruct rs as [|r [|]]; try contradiction. destruct Hin as [<-|[]]. tauto. }
     simpl in Hok. destruct Hok as (H & _). rewrite (H k Hk). destruct (r_pub i). reflexivity.
@@ -3853,9 +3834,9 @@ Section theorems.
   (** the stored next index of an existing account only changes by issuing:
       ONext adds n, OExtend raises it to last + 1, nothing else touches it *)
   Theorem index_frame st o s a i row :
-    reach b seed pass st -> adm st o = true -> aget sa_dec (d_accts (st_disk st)) (s, a) = Some row ->
-    disk_next (st_disk (fst (step b st o))) s a i =
-    match o, snd (step b st o) with
+    reach sl cg seed pass st -> adm st o = true -> aget sa_dec (d_accts (st_disk st)) (s, a) = Some row ->
+    disk_next (st_disk (fst (step (mkFacts true sl cg) st o))) s a i =
+    match o, snd (step (mkFacts true sl cg) st o) with
     | ONext s' a' i' n, OutAddrs _ =>
       if sab_dec (s, a, i) (s', a', i') then disk_next (st_disk st) s a i + n else disk_next (st_disk st) s a i
     | OExtend s' a' i' last, OutOk =>
@@ -3864,41 +3845,41 @@ Section theorems.
     | _, _ => disk_next (st_disk st) s a i
     end.
   Proof.
-    intros R Ha Hrow. pose proof (reach_good _ _ _ _ R) as G.
+    intros R Ha Hrow. pose proof (reach_good _ _ _ _ _ R) as G.
     destruct o.
-    - destruct (step_open seed b st G) as (_ & _ & H). rewrite H. reflexivity.
-    - destruct (step_unlock seed b st pass0 G) as (_ & _ & H). rewrite H. reflexivity.
-    - destruct (step_lock seed b st G) as (_ & _ & H). rewrite H. reflexivity.
+    - destruct (step_open seed (mkFacts true sl cg) st G) as (_ & _ & H). rewrite H. reflexivity.
+    - destruct (step_unlock seed (mkFacts true sl cg) st pass0 G) as (_ & _ & H). rewrite H. reflexivity.
+    - destruct (step_lock seed (mkFacts true sl cg) st G) as (_ & _ & H). rewrite H. reflexivity.
     - cbn [step]. destruct (negb (old =? m_pass (st_mem st))); reflexivity.
-    - destruct (step_newscope seed b st s0 sch G) as (_ & _ & _ & _ & H). exact (H (s, a, i)).
-    - destruct (step_newaccount seed b st s0 name G Ha) as (_ & _ & _ & _ & H). exact (H s a i row Hrow).
-    - destruct (step_importxpub seed b st s0 name x cn fp sch G Ha) as (_ & _ & _ & _ & H). exact (H s a i row Hrow).
-    - destruct (step_next seed b st s0 a0 internal n G) as (_ & _ & _ & H).
-      destruct (snd (step b st (ONext s0 a0 internal n))) eqn:E; try contradiction; [rewrite H; reflexivity|].
+    - destruct (step_newscope seed (mkFacts true sl cg) st s0 sch G) as (_ & _ & _ & _ & H). exact (H (s, a, i)).
+    - destruct (step_newaccount seed (mkFacts true sl cg) st s0 name G Ha) as (_ & _ & _ & _ & H). exact (H s a i row Hrow).
+    - destruct (step_importxpub seed (mkFacts true sl cg) st s0 name x cn fp sch G Ha) as (_ & _ & _ & _ & H). exact (H s a i row Hrow).
+    - destruct (step_next seed (mkFacts true sl cg) st s0 a0 internal n G) as (_ & _ & _ & H).
+      destruct (snd (step (mkFacts true sl cg) st (ONext s0 a0 internal n))) eqn:E; try contradiction; [rewrite H; reflexivity|].
       destruct H as (H1 & H2 & _). destruct (sab_dec (s, a, i) (s0, a0, internal)) as [Heq|Hne].
       + inversion Heq. subst. exact H1.
       + apply H2. exact Hne.
-    - destruct (step_extend seed b st s0 a0 internal last G) as (_ & _ & _ & H).
-      destruct (snd (step b st (OExtend s0 a0 internal last))) eqn:E; try contradiction; [|rewrite H; reflexivity].
+    - destruct (step_extend seed sl cg st s0 a0 internal last G) as (_ & _ & _ & H).
+      destruct (snd (step (mkFacts true sl cg) st (OExtend s0 a0 internal last))) eqn:E; try contradiction; [|rewrite H; reflexivity].
       destruct H as (H1 & H2). destruct (sab_dec (s, a, i) (s0, a0, internal)) as [Heq|Hne].
       + inversion Heq. subst. exact H1.
       + apply H2. exact Hne.
-    - destruct (step_lookup seed b st ad G) as (_ & _ & _ & H & _). rewrite H. reflexivity.
-    - destruct (step_markused seed b st ad G) as (_ & _ & _ & H). rewrite H. reflexivity.
-    - destruct (step_derive seed b st s0 p G) as (_ & _ & _ & H & _). rewrite H. reflexivity.
-    - destruct (step_derivecache seed b st s0 p G) as (_ & _ & _ & H & _). rewrite H. reflexivity.
-    - destruct (step_importkey seed b st s0 k G) as (_ & _ & _ & _ & H & _). unfold disk_next. rewrite H. reflexivity.
-    - destruct (step_importscript seed b st s0 sc G) as (_ & _ & _ & _ & H & _). unfold disk_next. rewrite H. reflexivity.
-    - destruct (step_props seed b st s0 a0 G) as (_ & _ & _ & H & _). rewrite H. reflexivity.
-    - destruct (step_priv seed b st h G) as (_ & _ & _ & H & _). rewrite H. reflexivity.
-    - destruct (step_script seed b st h G) as (_ & _ & _ & H & _). rewrite H. reflexivity.
+    - destruct (step_lookup seed (mkFacts true sl cg) st ad G) as (_ & _ & _ & H & _). rewrite H. reflexivity.
+    - destruct (step_markused seed (mkFacts true sl cg) st ad G) as (_ & _ & _ & H). rewrite H. reflexivity.
+    - destruct (step_derive seed (mkFacts true sl cg) st s0 p G) as (_ & _ & _ & H & _). rewrite H. reflexivity.
+    - destruct (step_derivecache seed (mkFacts true sl cg) st s0 p G) as (_ & _ & _ & H & _). rewrite H. reflexivity.
+    - destruct (step_importkey seed (mkFacts true sl cg) st s0 k G) as (_ & _ & _ & _ & H & _). unfold disk_next. rewrite H. reflexivity.
+    - destruct (step_importscript seed (mkFacts true sl cg) st s0 sc G) as (_ & _ & _ & _ & H & _). unfold disk_next. rewrite H. reflexivity.
+    - destruct (step_props seed (mkFacts true sl cg) st s0 a0 G) as (_ & _ & _ & H & _). rewrite H. reflexivity.
+    - destruct (step_priv seed (mkFacts true sl cg) st h G) as (_ & _ & _ & H & _). rewrite H. reflexivity.
+    - destruct (step_script seed (mkFacts true sl cg) st h G) as (_ & _ & _ & H & _). rewrite H. reflexivity.
   Qed.
 End theorems.
 
 (** Private keys, for the source version in which extendAddresses uses the
     same watch-only test as nextAddresses ([extend_priv] = true). *)
 Section priv_theorems.
-  Context (seed pass : N).
+  Context (sl cg : bool) (seed pass : N).
 
   (** an address object the caller holds *)
   Definition handle_obj (st : state) (h : nat) (ma : maddr) : Prop :=
@@ -3907,14 +3888,14 @@ Section priv_theorems.
 
   (** every such object is the child of its account key (chain addresses) or an
       imported key, and any key stored in it is the key of its public key *)
-  Theorem handle_obj_ok b st h ma :
-    reach b seed pass st -> handle_obj st h ma ->
+  Theorem handle_obj_ok st h ma :
+    reach sl cg seed pass st -> handle_obj st h ma ->
     if ma_imported ma then exists k, ma_pub ma = Pub (imp_key k)
     else exists row sch, acct_of st (ma_scope ma) (dp_iacct (ma_path ma)) row sch /\
            ma_pub ma = Pub (path_skey (ar_pub row) (dp_branch (ma_path ma)) (dp_index (ma_path ma))) /\
            ma_fmt ma = row_fmt sch row (dp_branch (ma_path ma)).
   Proof.
-    intros R (oid & _ & Ho). destruct (reach_good _ _ _ _ R) as (I & _).
+    intros R (oid & _ & Ho). destruct (reach_good _ _ _ _ _ R) as (I & _).
     destruct (i_heap _ _ _ I _ _ Ho) as (_ & H). destruct (ma_imported ma).
     - destruct H as (n & _ & _ & H1 & _). eauto.
     - destruct H as (row & sch & coin & H1 & H2 & H3 & H4 & _). exists row, sch. unfold acct_of. eauto.
@@ -3924,14 +3905,14 @@ Section priv_theorems.
       on an imported key, returns exactly the private key of its public key
       whenever the manager is unlocked *)
   Theorem priv_key_available st h ma :
-    reach true seed pass st -> handle_obj st h ma -> m_locked (st_mem st) = false ->
+    reach sl cg seed pass st -> handle_obj st h ma -> m_locked (st_mem st) = false ->
     (ma_imported ma = false ->
      exists row, aget sa_dec (d_accts (st_disk st)) (ma_scope ma, dp_iacct (ma_path ma)) = Some row /\
                  ar_priv row <> None) ->
-    snd (step true st (OPriv h)) = OutKey (Priv (skey_of_pub (ma_pub ma))).
+    snd (step (mkFacts true sl cg) st (OPriv h)) = OutKey (Priv (skey_of_pub (ma_pub ma))).
   Proof.
-    intros R (oid & Hh & Ho) Hl Hrow. pose proof (reach_good _ _ _ _ R) as G. pose proof (reach_avail _ _ _ R) as A.
-    destruct (step_priv seed true st h G) as (_ & _ & _ & _ & H). rewrite (H oid ma Hh Ho), Hl.
+    intros R (oid & Hh & Ho) Hl Hrow. pose proof (reach_good _ _ _ _ _ R) as G. pose proof (reach_avail _ _ _ _ _ R) as A.
+    destruct (step_priv seed (mkFacts true sl cg) st h G) as (_ & _ & _ & _ & H). rewrite (H oid ma Hh Ho), Hl.
     destruct G as (I & _). destruct (i_heap _ _ _ I _ _ Ho) as (_ & Hobj).
     destruct (ma_imported ma) eqn:Ei.
     - destruct Hobj as (n & _ & _ & _ & E & _). rewrite E. reflexivity.
@@ -3943,79 +3924,79 @@ Section priv_theorems.
   (** the addresses an operation hands out while unlocked already carry their
       private key (just issued / looked up / derived / reloaded after restart) *)
   Theorem reported_priv_available st o st' rs i row :
-    reach true seed pass st -> adm st o = true -> step true st o = (st', OutAddrs rs) -> In (RKey i) rs ->
+    reach sl cg seed pass st -> adm st o = true -> step (mkFacts true sl cg) st o = (st', OutAddrs rs) -> In (RKey i) rs ->
     (match o with ONext _ _ _ _ | OLookup _ | ODerive _ _ => True | _ => False end) ->
     m_locked (st_mem st) = false -> r_imported i = false ->
     aget sa_dec (d_accts (st_disk st')) (r_scope i, r_iacct i) = Some row -> ar_priv row <> None ->
     r_priv i = POk (Priv (skey_of_pub (r_pub i))).
   Proof.
-    intros R Ha Hs Hin Hop Hl Hi Hrow Hp. pose proof (reach_good _ _ _ _ R) as G. pose proof (reach_avail _ _ _ R) as A.
+    intros R Ha Hs Hin Hop Hl Hi Hrow Hp. pose proof (reach_good _ _ _ _ _ R) as G. pose proof (reach_avail _ _ _ _ _ R) as A.
     assert (Hav : rinfo_avail (st_disk st') (m_locked (st_mem st)) (RKey i)).
     { destruct o; try contradiction.
-      - pose proof (step_next seed true st s a internal n G) as H. rewrite Hs in H. cbn [fst snd] in H.
+      - pose proof (step_next seed (mkFacts true sl cg) st s a internal n G) as H. rewrite Hs in H. cbn [fst snd] in H.
         destruct H as (_ & _ & _ & _ & _ & H3). clear - H3 Hin A. induction H3; [contradiction|].
         destruct Hin as [<-|Hin]; [tauto|auto].
-      - pose proof (step_lookup seed true st ad G) as H. rewrite Hs in H. cbn [fst snd] in H.
+      - pose proof (step_lookup seed (mkFacts true sl cg) st ad G) as H. rewrite Hs in H. cbn [fst snd] in H.
         destruct H as (_ & _ & _ & _ & H).
         destruct rs as [|r [|]]; try contradiction. destruct Hin as [<-|[]]. tauto.
-      - pose proof (step_derive seed true st s p G) as H. rewrite Hs in H. cbn [fst snd] in H.
+      - pose proof (step_derive seed (mkFacts true sl cg) st s p G) as H. rewrite Hs in H. cbn [fst snd] in H.
         destruct H as (_ & _ & _ & _ & H).
         destruct rs as [|r [|]]; try contradiction. destruct Hin as [<-|[]]. tauto. }
     exact (Hav Hi Hl row Hrow Hp).
   Qed.
 
   (** imported private keys and scripts come back unchanged *)
-  Theorem imported_key_unchanged b st s k st' rs :
-    reach b seed pass st -> step b st (OImportKey s k) = (st', OutAddrs rs) ->
+  Theorem imported_key_unchanged st s k st' rs :
+    reach sl cg seed pass st -> step (mkFacts true sl cg) st (OImportKey s k) = (st', OutAddrs rs) ->
     exists i, rs = [RKey i] /\ r_imported i = true /\ r_pub i = Pub (imp_key k) /\ r_priv i = POk (Priv (imp_key k)).
   Proof.
-    intros R Hs. pose proof (reach_good _ _ _ _ R) as G.
-    pose proof (step_importkey seed b st s k G) as H. rewrite Hs in H. cbn [fst snd] in H.
+    intros R Hs. pose proof (reach_good _ _ _ _ _ R) as G.
+    pose proof (step_importkey seed (mkFacts true sl cg) st s k G) as H. rewrite Hs in H. cbn [fst snd] in H.
     destruct H as (_ & _ & _ & _ & _ & _ & H). destruct rs as [|r [|]]; try contradiction.
     destruct H as (_ & i & -> & H). eauto.
   Qed.
 
-  Theorem imported_key_later b st ad st' i :
-    reach b seed pass st -> step b st (OLookup ad) = (st', OutAddrs [RKey i]) -> r_imported i = true ->
+  Theorem imported_key_later st ad st' i :
+    reach sl cg seed pass st -> step (mkFacts true sl cg) st (OLookup ad) = (st', OutAddrs [RKey i]) -> r_imported i = true ->
     exists k, r_pub i = Pub (imp_key k) /\ addr_key (AKey (r_fmt i) (Pub (imp_key k))) = addr_key ad /\
               (m_locked (st_mem st) = false -> r_priv i = POk (Priv (imp_key k))).
   Proof.
-    intros R Hs Hi. pose proof (reach_good _ _ _ _ R) as G.
-    pose proof (step_lookup seed b st ad G) as H. rewrite Hs in H. cbn [fst snd] in H.
+    intros R Hs Hi. pose proof (reach_good _ _ _ _ _ R) as G.
+    pose proof (step_lookup seed (mkFacts true sl cg) st ad G) as H. rewrite Hs in H. cbn [fst snd] in H.
     destruct H as (_ & _ & _ & _ & H1 & _ & H3 & _). simpl in H1. rewrite Hi in H1.
     destruct H1 as (_ & _ & n & P1 & _ & _ & P4). exists n. simpl in H3. rewrite P1 in H3. auto.
   Qed.
 
-  Theorem imported_script_unchanged b st s sc st' rs :
-    reach b seed pass st -> step b st (OImportScript s sc) = (st', OutAddrs rs) -> rs = [RScr s sc (SOk sc)].
+  Theorem imported_script_unchanged st s sc st' rs :
+    reach sl cg seed pass st -> step (mkFacts true sl cg) st (OImportScript s sc) = (st', OutAddrs rs) -> rs = [RScr s sc (SOk sc)].
   Proof.
-    intros R Hs. pose proof (reach_good _ _ _ _ R) as G.
-    pose proof (step_importscript seed b st s sc G) as H. rewrite Hs in H. cbn [fst snd] in H.
+    intros R Hs. pose proof (reach_good _ _ _ _ _ R) as G.
+    pose proof (step_importscript seed (mkFacts true sl cg) st s sc G) as H. rewrite Hs in H. cbn [fst snd] in H.
     destruct H as (_ & _ & _ & _ & _ & _ & H). destruct rs as [|r [|]]; try contradiction.
     destruct H as (_ & ->). reflexivity.
   Qed.
 
-  Theorem script_later b st h oid sa :
-    reach b seed pass st -> nth_error (m_handles (st_mem st)) h = Some oid ->
+  Theorem script_later st h oid sa :
+    reach sl cg seed pass st -> nth_error (m_handles (st_mem st)) h = Some oid ->
     nth_error (m_heap (st_mem st)) oid = Some (MScript sa) -> m_locked (st_mem st) = false ->
-    snd (step b st (OScript h)) = OutScript (sa_script sa).
+    snd (step (mkFacts true sl cg) st (OScript h)) = OutScript (sa_script sa).
   Proof.
-    intros R Hh Ho Hl. pose proof (reach_good _ _ _ _ R) as G.
-    destruct (step_script seed b st h G) as (_ & _ & _ & _ & H). rewrite (H oid sa Hh Ho), Hl. reflexivity.
+    intros R Hh Ho Hl. pose proof (reach_good _ _ _ _ _ R) as G.
+    destruct (step_script seed (mkFacts true sl cg) st h G) as (_ & _ & _ & _ & H). rewrite (H oid sa Hh Ho), Hl. reflexivity.
   Qed.
 End priv_theorems.
 
 (** Two wallets created from the same seed (any passphrases, any histories,
     any source version) agree on the key of every seed-derived account,
     branch and index, hence on the address whenever the formats agree. *)
-Theorem same_seed_same_keys b1 b2 seed pass1 pass2 st1 st2 s a row1 row2 :
-  reach b1 seed pass1 st1 -> reach b2 seed pass2 st2 ->
+Theorem same_seed_same_keys sl1 cg1 sl2 cg2 seed pass1 pass2 st1 st2 s a row1 row2 :
+  reach sl1 cg1 seed pass1 st1 -> reach sl2 cg2 seed pass2 st2 ->
   aget sa_dec (d_accts (st_disk st1)) (s, a) = Some row1 -> aget sa_dec (d_accts (st_disk st2)) (s, a) = Some row2 ->
   ar_kind row1 = ADefault -> ar_kind row2 = ADefault ->
   ar_pub row1 = ar_pub row2 /\ row_fmt (mkSchema P2PKH P2PKH) row1 = row_fmt (mkSchema P2PKH P2PKH) row2.
 Proof.
   intros R1 R2 H1 H2 K1 K2.
-  pose proof (account_keys _ _ _ _ _ _ _ R1 H1) as A1. pose proof (account_keys _ _ _ _ _ _ _ R2 H2) as A2.
+  pose proof (account_keys _ _ _ _ _ _ _ _ R1 H1) as A1. pose proof (account_keys _ _ _ _ _ _ _ _ R2 H2) as A2.
   rewrite K1 in A1. rewrite K2 in A2. destruct A1 as (E1 & _ & S1). destruct A2 as (E2 & _ & S2).
   split; [congruence|]. unfold row_fmt. rewrite S1, S2. reflexivity.
 Qed.
